@@ -127,6 +127,41 @@ func oracleLastEntryWins(c *FsCase, before, after *Outcome, out string) []Proble
 			}
 		}
 	}
+	// the frame (C05's last clause), independently of the model: a pre-existing path that no entry names, at or
+	// above it, and that is not the source of a hard-link entry, is still there with the same type, content,
+	// mode and owner — and the same time unless it is a directory
+	prev := map[string][]string{}
+	for _, n := range before.Nodes {
+		prev[unhx(n[0])] = n
+	}
+	for q, n0 := range prev {
+		qc := pushRaw(nil, q)
+		if len(qc) <= len(dest) || !compsWithin(dest, qc) {
+			continue
+		}
+		named := false
+		for _, y := range live {
+			if y == nil {
+				continue
+			}
+			if atOrAbove(y.p, qc) || (y.src != nil && atOrAbove(y.src, qc) && atOrAbove(qc, y.src)) {
+				named = true
+			}
+		}
+		if named || n0[10] != "0" { // members of hard-link groups may change through their other names
+			continue
+		}
+		n1, ok := nodes[q]
+		switch {
+		case !ok:
+			probs = append(probs, Problem{Kind: "oracle", Stream: "extract", Msg: fmt.Sprintf("C05: frame: %s existed before, nothing in the archive names it or a path above it, and it is gone", q)})
+		case n1[1] != n0[1] || n1[2] != n0[2] || n1[3] != n0[3] || n1[4] != n0[4] || n1[6] != n0[6] || (n0[1] != "d" && n1[5] != n0[5]):
+			probs = append(probs, Problem{Kind: "oracle", Stream: "extract", Msg: fmt.Sprintf("C05: frame: %s is named by nothing in the archive, yet changed: %s -> %s", q, strings.Join(n0[1:7], " "), strings.Join(n1[1:7], " "))})
+		}
+		if len(probs) > 3 {
+			break
+		}
+	}
 	if len(probs) > 3 {
 		probs = probs[:3]
 	}
